@@ -51,11 +51,12 @@ pub(crate) fn format_docstring(docstring: String) -> String {
         } else if line.trim().is_empty() {
             result.push(String::new());
         } else {
-            let dedented = if line.len() > min_indent {
-                &line[min_indent..]
-            } else {
-                line.trim_start()
-            };
+            // `min_indent` is a byte count taken from another line: on this line it may fall
+            // inside a multi-byte whitespace character (e.g. U+3000), so never slice blindly.
+            let dedented = line
+                .get(min_indent..)
+                .filter(|rest| !rest.is_empty())
+                .unwrap_or_else(|| line.trim_start());
             result.push(dedented.to_string());
         }
     }
